@@ -317,6 +317,13 @@ def check_property(prop, tier, seed):
             if any(x[0] == "miri-unsupported" for x in reps):
                 inconclusive.append(f"{r.name}: miri unsupported operation: {reps[0][1]}")
                 continue
+            if r.rc is not None and r.rc < 0 and memclass and prop in ("C01", "C19", "C20", "C08"):
+                # the native process died from a signal while running safe-API histories:
+                # memory has been corrupted (this is what a dangling waiter looks like without a sanitizer)
+                rp = os.path.join(REPLAYS, f"{prop}-{r.name}-crash.log")
+                open(rp, "w").write("CMD: " + " ".join(r.cmd) + f"\nexit: signal {-r.rc}\n\n" + text[-20000:])
+                violations.append({"signature": f"crash:{leg['name']}:signal={-r.rc}", "replay": rp, "text": f"process killed by signal {-r.rc} while executing contract-respecting histories"})
+                continue
             if r.rc not in (0, 1) or s is None:
                 inconclusive.append(f"{r.name}: harness error rc={r.rc} stderr={r.stderr[-300:]!r}")
                 continue
